@@ -185,6 +185,19 @@ def _param_table():
         add('3d progress=bogus axis=%r' % (ax,), lambda ax=ax: compute_features_3d(s22, fs, fr, {'threshold_kwargs': {}}, axis=ax, n_jobs=1, progress='tdqm'), 'ValueError')
         add('BycycleGroup 3d progress=bogus axis=%r' % (ax,), lambda ax=ax: BycycleGroup(thresholds={}).fit(s22, fs, fr, axis=ax, n_jobs=1, progress='tdqm'), 'ValueError')
     add('2d progress=bogus axis=None', lambda: compute_features_2d(s2, fs, fr, {'threshold_kwargs': {}}, axis=None, n_jobs=1, progress='tdqm'), 'ValueError')
+    def refit_invalid_after_plot():
+        # an invalid value written into the stored thresholds is still there (and still refused) after the object has drawn its table
+        import matplotlib.pyplot as plt
+        bm = Bycycle(thresholds={'monotonicity_threshold': 0.5, 'min_n_cycles': 2})
+        bm.fit(sig, fs, fr); bm.thresholds['min_n_cycles'] = -2
+        try:
+            bm.plot(xlim=(0.0, 1.0))
+        except Exception:
+            pass
+        finally:
+            plt.close('all')
+        bm.fit(sig, fs, fr)
+    add('Bycycle re-fit after setting min_n_cycles = -2 and plotting', refit_invalid_after_plot, 'ValueError')
     def refit_invalid():
         bm = Bycycle(burst_method='amp', thresholds={'burst_fraction_threshold': 0.8, 'min_n_cycles': 3})
         bm.fit(sig, fs, fr); bm.thresholds['min_n_cycles'] = -2; bm.fit(sig, fs, fr)
